@@ -384,7 +384,7 @@ def run(repo: Repo, tier: str) -> Report:
     divguard(rep, repo, kernels, ["mean_grp", "rolling_sum"], flavours=("scalar",))
     from ..rules import no_early_exit
     from ..symb import StoreCollector
-    no_early_exit(rep, StoreCollector(mg.node, FILE, loop_atoms_by_name=True, strict=False, keep_arrays=True).run(), FILE, "mean_grp", "group loop and member loop",
+    no_early_exit(rep, StoreCollector(mg.node, FILE, loop_atoms_by_name=True, strict=False, keep_arrays=True, array_params=array_params_of(mg)).run(), FILE, "mean_grp", "group loop and member loop",
                   allowed={("continue", f"eq0[-1*elem[{pix}] + {gnod}]"), ("continue", f"eq0[elem[{pix}] + -1*{gnod}]")})
     sentinel_discipline(rep, mg, gnod, dm)
     msite = [s for s in load_sites(repo, kernels) if s.kernel == "mean_grp"]
